@@ -793,7 +793,13 @@ void mon_after_event(void)
             if (b >= 0 && !PR[after[a].pid].ran_this_event && after[a].etime != gbefore[g][b].etime)
                 viol("C06", "entry-time-changed", "process %d kept waiting in a %s list but its waiting-since time changed from %g to %g", after[a].pid, gcname(W.guards[g].cls), gbefore[g][b].etime, after[a].etime);
             if (b < 0 || PR[after[a].pid].ran_this_event) garr[g][after[a].pid] = ev_seq + 1;     /* entered (or left and entered again) in this event */
-            if (b < 0 && after[a].etime != now)
+            /* a process that is served in part, or robbed of a grant, and waits again inside the same call has been waiting since
+             * that call began: it keeps its place among its equals */
+            if (PR[after[a].pid].op != OP_NONE && !PR[after[a].pid].finished && guard_of_wait(&PR[after[a].pid]) == g
+                && after[a].etime != PR[after[a].pid].call_t && after[a].etime == now && PR[after[a].pid].call_t < now)
+                viol("C06", "waiting-since-reset-within-a-call", "process %d waits in a %s list since t=%g inside one call, but re-entered the list at t=%g as if it had just arrived",
+                     after[a].pid, gcname(W.guards[g].cls), PR[after[a].pid].call_t, now);
+            if (b < 0 && after[a].etime != now && after[a].etime != PR[after[a].pid].call_t)
                 viol("C06", "entry-time-wrong", "process %d entered a %s list at t=%g with waiting-since time %g", after[a].pid, gcname(W.guards[g].cls), now, after[a].etime);
         }
         /* the waiting list's sort key must follow the waiter's current priority */
